@@ -56,6 +56,10 @@ theorem applySingle_eq_table (kvs : AMap Node) (m : Mod) : applySingle kvs m = a
   unfold applySingle applySingleT
   cases m.ty <;> rfl
 
+theorem applySingle_eq_rows (kvs : AMap Node) (m : Mod) : applySingle kvs m = applySingleBy applyRowsM kvs m := by
+  cases m with
+  | mk ty path value old => cases ty <;> rfl
+
 /-- the Add / Change walk: a component with index groups goes through applyListItem, any other through
     applyNonListItem; both create what is missing -/
 theorem applyAddSegs_step (kvs : AMap Node) (c c2 : String) (rest : List String) (v : Scalar) :
@@ -109,6 +113,12 @@ theorem mod2op_wellformed (ptr : String → Ptr.Path) (m : Mod) :
     · refine ⟨.doRemove, ?_, rfl, ?_, rfl⟩
       · simp [mod2op, opOfMod, handlerOf, dispatchTable, List.lookup]
       · simp [Handler.needsValue]
+
+/-- the model's conversion is the one the case table and the field table describe -/
+theorem mod2op_eq_table (ptr : String → Ptr.Path) (m : Mod) :
+    mod2opBy mod2opRowsM mod2opFieldsM ptr m = some (mod2op ptr m) := by
+  cases m with
+  | mk ty path value old => cases ty <;> rfl
 
 end Ytk.Xform
 
